@@ -1166,6 +1166,19 @@ fn check_length(cx: &mut Cx, sp: &dyn Space) {
         // the members partition the same segments
         cx.tol("length.sum", "length(MultiLineString)", (g - sum).abs(), t, "|length - sum of segment distances| <= 16 n u sum");
     }
+    // the same members with an empty and a one-coordinate member among them (no segments: nothing to add, and
+    // nothing to stop at)
+    if !mls.0.is_empty() && !ls.0.is_empty() {
+        let mut members = mls.0.clone();
+        let at = n % (members.len() + 1);
+        members.insert(at, LineString::new(vec![]));
+        let at2 = (n / 2) % (members.len() + 1);
+        members.insert(at2, LineString::new(vec![ls.0[0]]));
+        let mls2 = MultiLineString::new(members);
+        if let Some(g) = cx.run("length(MultiLineString with empty members)", || sp.len_mls(&mls2)) {
+            cx.tol("length.sum", "length(MultiLineString with an empty and a one-coordinate member)", (g - sum).abs(), t, "|length - sum of segment distances| <= 16 n u sum");
+        }
+    }
     cx.sh.class(&format!("length:linestring_points:{}", n.min(4)));
 }
 
